@@ -18,6 +18,7 @@ RULE = ("histories = (write plan: tick -> value, same or different values, write
         "the rest is seeded random; histories in which an entry reset and a taken-transition reset hit the same mark in the same "
         "tick are counted ambiguous and excluded; the observed framer as two clones of a moot framer; update / change conditions as the condition of a conditional auxiliary (refused starts, one-shot auxiliaries); distinct = distinct (program, plan); non-trivial = at least one marker-guarded "
         "transition taken and one refused")
+RULE = __import__("vf.core", fromlist=["rule_add"]).rule_add(RULE, 'also both kinds of marker (update and change) on one frame and share, twin clones of one moot, gated conditional auxiliaries')
 META = {"engine": "A floscript", "technique": "runtime monitor of per-tick active frame vs marker-rule model on tick numbers",
         "level_text": "The active frame at the end of every tick of each generated history is compared with a direct transcription of the "
                       "statement's rules (mark set on entry to the named frame and on every taken guarded transition; same-tick update "
